@@ -297,7 +297,7 @@ def checks(work, jobs, wrk):
     if os.environ.get("PHASE") == "2":
         p1 = json.load(open(os.path.join(work, "checks.json")))
         todo = [m for m in todo if str(m["id"]) in p1 and not p1[str(m["id"])]["hit"]]
-    todo.sort(key=lambda m: m["id"])
+    todo.sort(key=lambda m: (m["id"] * 7919) % 2903)
     import queue
     free = queue.Queue()
     for k in range(jobs):
